@@ -232,8 +232,10 @@ Qed.
 (* ------------------------------------------------------------------------------------ *)
 (* the statement loop of Loader::parse_with_parser *)
 
-Definition stmts_loop (fixed : bool) (rec : loader -> bytes -> bytes -> vars -> outcome loader)
-           (fs : list (bytes * bytes)) (buf filename : bytes) :=
+(* [rec reading' l path content vs] reads an included file; [reading] are the canonical names of
+   the files being read right now (fix for F20) *)
+Definition stmts_loop (fixed : bool) (rec : list bytes -> loader -> bytes -> bytes -> vars -> outcome loader)
+           (fs : list (bytes * bytes)) (reading : list bytes) (buf filename : bytes) :=
   fix stmts (n : nat) (l : loader) (s : scanner) (vs : vars) : outcome loader :=
     match n with
     | O => OutOfFuel
@@ -250,10 +252,13 @@ Definition stmts_loop (fixed : bool) (rec : loader -> bytes -> bytes -> vars -> 
           do r <- evaluate_path l p [vars_env vs];
           let '(l, id) := r in
           let path := file_nm l id in
+          if existsb (bytes_eqb path) reading
+          then Err (filename ++ bs ": " ++ path ++ bs " includes itself")
+          else
           match assoc_b path fs with
           | None => Err (bs "read " ++ path ++ bs ": No such file or directory (os error 2)")
           | Some content =>
-            do l <- rec l path content vs;
+            do l <- rec (reading ++ [path]) l path content vs;
             stmts n l s vs
           end
         | SDefault ds =>
@@ -269,10 +274,17 @@ Definition stmts_loop (fixed : bool) (rec : loader -> bytes -> bytes -> vars -> 
       end
     end.
 
+Lemma parse_file_r_unfold fixed depth fs reading l filename text inherited :
+  parse_file_r fixed (S depth) fs reading l filename text inherited =
+  do s0 <- sc_new (text ++ [0%N]);
+  stmts_loop fixed (parse_file_r fixed depth fs) fs reading (text ++ [0%N]) filename
+             (S (length (text ++ [0%N]))) l s0 inherited.
+Proof. reflexivity. Qed.
+
 Lemma parse_file_unfold fixed depth fs l filename text inherited :
   parse_file fixed (S depth) fs l filename text inherited =
   do s0 <- sc_new (text ++ [0%N]);
-  stmts_loop fixed (parse_file fixed depth fs) fs (text ++ [0%N]) filename
+  stmts_loop fixed (parse_file_r fixed depth fs) fs [] (text ++ [0%N]) filename
              (S (length (text ++ [0%N]))) l s0 inherited.
 Proof. reflexivity. Qed.
 
@@ -280,12 +292,12 @@ Lemma LInv_same_graph l l' :
   l_files l' = l_files l -> l_builds l' = l_builds l -> LInv l -> LInv l'.
 Proof. intros F B I. destruct I as [A1 A2 A3 A4 A5]. constructor; rewrite ?F, ?B; assumption. Qed.
 
-Lemma stmts_loop_LInv rec fs buf filename :
-  (forall l path content vs l', LInv l -> rec l path content vs = Ok l' -> LInv l') ->
-  forall n l s vs l', LInv l -> stmts_loop true rec fs buf filename n l s vs = Ok l' -> LInv l'.
+Lemma stmts_loop_LInv rec fs reading buf filename :
+  (forall rd l path content vs l', LInv l -> rec rd l path content vs = Ok l' -> LInv l') ->
+  forall n l s vs l', LInv l -> stmts_loop true rec fs reading buf filename n l s vs = Ok l' -> LInv l'.
 Proof.
   intro REC. induction n as [|n IH]; intros l s vs l' I H; [discriminate|].
-  cbn [stmts_loop] in H. fold (stmts_loop true rec fs buf filename) in H.
+  cbn [stmts_loop] in H. fold (stmts_loop true rec fs reading buf filename) in H.
   destruct (parser_read true (parse_fuel buf) s vs) as [[[st|] vs1] s1| | | |] eqn:PR; try discriminate.
   2:{ inversion H; subst. eapply LInv_same_graph; [| |exact I]; reflexivity. }
   2:{ apply bind_ok in H as [txt [_ H]]. discriminate. }
@@ -299,25 +311,31 @@ Proof.
     eapply LInv_same_graph; [| |eapply Ext_LInv; [exact X | exact I]]; reflexivity.
   - apply bind_ok in H as [[l1 id] [E H]].
     destruct (evaluate_path_spec _ _ _ _ _ E) as [X _].
+    destruct (existsb (bytes_eqb (file_nm l1 id)) reading); [discriminate|].
     destruct (assoc_b (file_nm l1 id) fs) as [content|]; [|discriminate].
     apply bind_ok in H as [l2 [E2 H]]. eapply IH; [|exact H].
     eapply REC; [|exact E2]. eapply Ext_LInv; [exact X | exact I].
   - apply bind_ok in H as [[l1 id] [E H]].
     destruct (evaluate_path_spec _ _ _ _ _ E) as [X _].
+    destruct (existsb (bytes_eqb (file_nm l1 id)) reading); [discriminate|].
     destruct (assoc_b (file_nm l1 id) fs) as [content|]; [|discriminate].
     apply bind_ok in H as [l2 [E2 H]]. eapply IH; [|exact H].
     eapply REC; [|exact E2]. eapply Ext_LInv; [exact X | exact I].
   - eapply IH; [|exact H]. eapply LInv_same_graph; [| |exact I]; reflexivity.
 Qed.
 
-Lemma parse_file_LInv fs : forall depth l filename text inherited l',
-  LInv l -> parse_file true depth fs l filename text inherited = Ok l' -> LInv l'.
+Lemma parse_file_r_LInv fs : forall depth reading l filename text inherited l',
+  LInv l -> parse_file_r true depth fs reading l filename text inherited = Ok l' -> LInv l'.
 Proof.
-  induction depth as [|depth IH]; intros l filename text inherited l' I H; [discriminate|].
-  rewrite parse_file_unfold in H. apply bind_ok in H as [s0 [_ H]].
+  induction depth as [|depth IH]; intros reading l filename text inherited l' I H; [discriminate|].
+  rewrite parse_file_r_unfold in H. apply bind_ok in H as [s0 [_ H]].
   eapply stmts_loop_LInv; [|exact I | exact H].
-  intros l0 path content vs l0' I0 H0. eapply IH; eassumption.
+  intros rd l0 path content vs l0' I0 H0. eapply IH; eassumption.
 Qed.
+
+Lemma parse_file_LInv fs depth l filename text inherited l' :
+  LInv l -> parse_file true depth fs l filename text inherited = Ok l' -> LInv l'.
+Proof. apply parse_file_r_LInv. Qed.
 
 Lemma LInv_new : LInv loader_new.
 Proof.
@@ -339,22 +357,35 @@ Proof.
 Qed.
 
 (* an error from Graph::add_build is the result of the whole load: no loader comes back *)
-Lemma stmts_loop_build_err fixed rec fs buf filename n l s vs pb vs1 s1 m :
+Lemma stmts_loop_build_err fixed rec fs reading buf filename n l s vs pb vs1 s1 m :
   parser_read fixed (parse_fuel buf) s vs = SOk (Some (SBuild pb), vs1) s1 ->
   loader_add_build fixed l filename vs1 pb = Err m ->
-  stmts_loop fixed rec fs buf filename (S n) l s vs = Err m.
+  stmts_loop fixed rec fs reading buf filename (S n) l s vs = Err m.
 Proof. intros PR E. cbn [stmts_loop]. rewrite PR, E. reflexivity. Qed.
 
 (* include and subninja alike: the child file is read with the bindings made so far, and the
    parent goes on with exactly those bindings afterwards (finding F11 for include) *)
-Lemma stmts_loop_child_scope fixed rec fs buf filename n l s vs st p vs1 s1 l1 id content :
+Lemma stmts_loop_child_scope fixed rec fs reading buf filename n l s vs st p vs1 s1 l1 id content :
   st = SInclude p \/ st = SSubninja p ->
   parser_read fixed (parse_fuel buf) s vs = SOk (Some st, vs1) s1 ->
   evaluate_path l p [vars_env vs1] = Ok (l1, id) ->
+  existsb (bytes_eqb (file_nm l1 id)) reading = false ->
   assoc_b (file_nm l1 id) fs = Some content ->
-  stmts_loop fixed rec fs buf filename (S n) l s vs =
-  do l2 <- rec l1 (file_nm l1 id) content vs1;
-  stmts_loop fixed rec fs buf filename n l2 s1 vs1.
+  stmts_loop fixed rec fs reading buf filename (S n) l s vs =
+  do l2 <- rec (reading ++ [file_nm l1 id]) l1 (file_nm l1 id) content vs1;
+  stmts_loop fixed rec fs reading buf filename n l2 s1 vs1.
 Proof.
-  intros [->| ->] PR E A; cbn [stmts_loop]; rewrite PR, E; cbn [bind]; rewrite A; reflexivity.
+  intros [->| ->] PR E X A; cbn [stmts_loop]; rewrite PR, E; cbn [bind]; rewrite X, A; reflexivity.
+Qed.
+
+(* a file that is being read is not read again (finding F20): the load ends with a diagnostic *)
+Lemma stmts_loop_include_cycle fixed rec fs reading buf filename n l s vs st p vs1 s1 l1 id :
+  st = SInclude p \/ st = SSubninja p ->
+  parser_read fixed (parse_fuel buf) s vs = SOk (Some st, vs1) s1 ->
+  evaluate_path l p [vars_env vs1] = Ok (l1, id) ->
+  existsb (bytes_eqb (file_nm l1 id)) reading = true ->
+  stmts_loop fixed rec fs reading buf filename (S n) l s vs =
+  Err (filename ++ bs ": " ++ file_nm l1 id ++ bs " includes itself").
+Proof.
+  intros [->| ->] PR E X; cbn [stmts_loop]; rewrite PR, E; cbn [bind]; rewrite X; reflexivity.
 Qed.
